@@ -43,3 +43,77 @@ package runtime
 // Every escape unit denotes exactly the rune it replaces (so evaluating the literal gives back the string).
 //@ lemma js_unit_low(c) [C03]: 0 <= c && c < len(lowUnicodeReplacementTable) ==> jsunit(lowUnicodeReplacementTable[c]) == c by compute(0, 64)
 //@ lemma js_unit_tbl(c) [C03]: len(lowUnicodeReplacementTable) <= c && c < len(jsStrReplacementTable) && jsStrReplacementTable[c] != "" ==> jsunit(jsStrReplacementTable[c]) == c by compute(0, 256)
+
+// ---------------------------------------------------------------------------
+// C10: rendering is exact and fail-stop. Ghost state:
+//   out(w)        bytes accepted so far by writer w
+//   pending(bw)   bytes held by a bufio.Writer, sticky(bw) its sticky error, target(bw) where it flushes to
+//   doc(w)        logical output of w: for a *Buffer out(Underlying) ++ pending(b.b), otherwise out(w)
+//   failedDuring  some callee (writer, nested component, expression) returned a non-nil error
+
+// The pooled buffers may be in any state (a failed render leaves pending bytes
+// and a sticky error behind): GetBuffer must reset on acquisition.
+//@ pool bufferPool *Buffer: true
+
+//@ func (*Buffer) Reset [C10]
+//@   requires b != nil
+//@   modifies *b, *b.b
+//@   ensures b.b != nil
+//@   ensures b.Underlying == w
+//@   ensures target(b.b) == w
+//@   ensures pending(b.b) == "" && sticky(b.b) == nil
+
+//@ func (*Buffer) WriteString [C10]
+//@   requires b != nil && b.b != nil
+//@   requires target(b.b) == b.Underlying
+//@   modifies doc(b), failedDuring
+//@   ensures isPrefix(old(out(b.Underlying)), out(b.Underlying)) && isPrefix(out(b.Underlying), cat(old(doc(b)), s))
+//@   ensures implies(err == nil, doc(b) == cat(old(doc(b)), s) && failedDuring == old(failedDuring))
+//@   ensures implies(err != nil, failedDuring)
+//@   ensures implies(old(failedDuring), failedDuring)
+
+//@ func (*Buffer) Write [C10]
+//@   requires b != nil && b.b != nil
+//@   requires target(b.b) == b.Underlying
+//@   modifies doc(b), failedDuring
+//@   ensures isPrefix(old(out(b.Underlying)), out(b.Underlying)) && isPrefix(out(b.Underlying), cat(old(doc(b)), p))
+//@   ensures implies(err == nil, doc(b) == cat(old(doc(b)), p) && failedDuring == old(failedDuring))
+//@   ensures implies(err != nil, failedDuring)
+//@   ensures implies(old(failedDuring), failedDuring)
+
+// Flush: on success everything that was logically written has reached the
+// underlying writer; on failure it received a prefix.
+//@ func (*Buffer) Flush [C10]
+//@   requires b != nil && b.b != nil
+//@   requires target(b.b) == b.Underlying
+//@   modifies doc(b), failedDuring
+//@   ensures isPrefix(old(out(b.Underlying)), out(b.Underlying))
+//@   ensures implies(result == nil && old(sticky(b.b)) == nil, out(b.Underlying) == old(doc(b)) && pending(b.b) == "" && failedDuring == old(failedDuring))
+//@   ensures implies(old(sticky(b.b)) == nil, isPrefix(out(b.Underlying), old(doc(b))))
+//@   ensures implies(result != nil, failedDuring)
+//@   ensures implies(old(failedDuring), failedDuring)
+//@   ensures implies(old(sticky(b.b)) != nil, result != nil)
+
+// GetBuffer: a writer that already is a *Buffer is reused; otherwise a pooled
+// buffer is handed out freshly reset onto w ("a failed render never alters a later render").
+//@ func GetBuffer [C10]
+//@   ensures implies(w == nil, b == nil && !existing)
+//@   ensures implies(w != nil && dyntype(w, *Buffer), existing && b == payload(w, *Buffer))
+//@   ensures implies(w != nil && !dyntype(w, *Buffer), !existing && b != nil && b.b != nil)
+//@   ensures implies(w != nil && !dyntype(w, *Buffer), b.Underlying == w)
+//@   ensures implies(w != nil && !dyntype(w, *Buffer), target(b.b) == w)
+//@   ensures implies(w != nil && !dyntype(w, *Buffer), pending(b.b) == "" && sticky(b.b) == nil)
+
+//@ spec wfBuffer(b) = b != nil && b.b != nil && sameWriter(target(b.b), b.Underlying)
+
+// ReleaseBuffer: the flush error is the result (never swallowed).
+//@ func ReleaseBuffer [C10]
+//@   requires implies(dyntype(w, *Buffer), wfBuffer(payload(w, *Buffer)))
+//@   modifies doc(w), failedDuring
+//@   ensures implies(!dyntype(w, *Buffer), err == nil && failedDuring == old(failedDuring) && doc(w) == old(doc(w)))
+//@   ensures implies(dyntype(w, *Buffer), isPrefix(old(out(underlying(w))), out(underlying(w))))
+//@   ensures implies(dyntype(w, *Buffer) && err == nil && old(sticky(payload(w, *Buffer).b)) == nil, out(underlying(w)) == old(doc(w)) && failedDuring == old(failedDuring))
+//@   ensures implies(dyntype(w, *Buffer) && old(sticky(payload(w, *Buffer).b)) == nil, isPrefix(out(underlying(w)), old(doc(w))))
+//@   ensures implies(dyntype(w, *Buffer) && old(sticky(payload(w, *Buffer).b)) != nil, err != nil)
+//@   ensures implies(err != nil, failedDuring)
+//@   ensures implies(old(failedDuring), failedDuring)
